@@ -64,6 +64,7 @@ BOUNDS = {
         "scoring": {"n_thetas": [3, 4, 5, 6], "full_answer_tree_budgets": {"3": "1..2", "4": "1..5", "5": "1..5", "6": "1..3"},
                     "fixed_answers_for_larger_budgets": "identity, reversed, two rotations, for every budget up to C+1"},
         "lattice": "none in the quick tier",
+        "consumed_triples": {"(n_thetas, budget)": "CONSUMED list: 9 pairs up to 40 thetas / 6000 triples, default answers; score == sum over exactly the unranked triples"},
     },
     "thorough": {
         "exhaustive_all_indices": {"n": [0, THOROUGH_FULL_N], "k": [0, 4], "additional_(n,k)": STREAM_THOROUGH},
@@ -71,6 +72,7 @@ BOUNDS = {
                     "fixed_answers_for_larger_budgets": "identity, reversed, two rotations, for every budget up to C+1"},
         "lattice": {"n": LATTICE_N, "k": 3, "window": 3, "stride_points": LATTICE_STRIDE_POINTS,
                     "second_level_boundaries": "m and j on a lattice of ~40 values each"},
+        "consumed_triples": "as quick",
     },
 }
 ASSUMPTIONS = [
@@ -587,6 +589,8 @@ def plan(tier, seed):
             for p in range(parts):
                 items.append({"kind": "lattice", "n": n, "part": p, "parts": parts})
     items.append({"kind": "cross-k", "ns": list(range(0, 13))})
+    for c in range(0, len(CONSUMED), 3):
+        items.append({"kind": "consumed", "cases": CONSUMED[c:c + 3]})
     for entry in ("scorer", "hetero", "homo"):
         for n, budgets in ((4, (1, 3, 4, 5)), (5, (7, 10, 11)), (34, (5984, 6000, 5990 if tier == "thorough" else 6100))):
             items.append({"kind": "entry-budget", "entry": entry, "n": n, "budgets": list(budgets)})
@@ -606,8 +610,54 @@ def plan(tier, seed):
     return items
 
 
+def ref_score_over(triples, preds_p, var_p, dist):
+    """Scalar Monte-Carlo sum over exactly the given triples for one plate (preds_p, var_p: n x E)."""
+    terms = []
+    for a, b, c in triples:
+        d = dist[a][b] + dist[b][c] + dist[a][c]
+        t = math.log(d) if d > 0 else -math.inf
+        for e in range(len(preds_p[0])):
+            va, vb, vc = var_p[a][e], var_p[b][e], var_p[c][e]
+            ma, mb, mc = preds_p[a][e], preds_p[b][e], preds_p[c][e]
+            al = va * vb + vb * vc + va * vc
+            t += -0.5 * math.log(al) - 0.5 * va * vb * vc / (al * al) * (vc * (ma - mb) ** 2 + vb * (ma - mc) ** 2 + va * (mb - mc) ** 2)
+        terms.append(t)
+    mx = max(terms)
+    return mx + math.log(sum(math.exp(t - mx) for t in terms))
+
+
+def run_consumed(col, n, budget):
+    """The triples are also observed where they are CONSUMED: the returned score must equal the Monte-Carlo sum over
+    exactly the triples that were unranked, each once (a triple evaluated twice, or dropped, after unranking changes it)."""
+    ch = Chooser()
+    rec, exc, scores = scoring_run(n, budget, ch)
+    col.states += 1
+    judge_scoring(col, n, budget, ch.choices[:8], rec, exc)
+    if exc is not None or scores is None or not rec:
+        return
+    preds, var, dist = _kernel_inputs(n)
+    triples = [r[3] for r in rec]
+    case = {"kind": "consumed", "n": n, "budget": budget}
+    for p in range(preds.shape[0]):
+        want = ref_score_over(triples, preds[p].tolist(), var[p].tolist(), dist.tolist())
+        got = float(np.asarray(scores)[p])
+        col.outcome("consumed", n, budget, round(got, 6))
+        if not abs(got - want) <= 1e-8 * (1 + abs(want)):
+            col.violation(f"{PROP}|scoring|consumed-differently",
+                          f"n_thetas={n}, max_combos={budget}: {len(triples)} distinct triples were unranked, but the score of plate {p} is {got!r} "
+                          f"while the sum over exactly these triples (each once) gives {want!r} (diff {got - want:.3e}; log 2 = 0.693 would be every triple twice)", case)
+    col.nontriv("consumed", n, budget)
+
+
+CONSUMED = [(5, 10), (12, 5000), (19, 5000), (20, 5000), (25, 5000), (33, 2500), (33, 1500), (34, 6000), (40, 5000)]
+
+
 def run_item(item, col, tier):
     kind = item["kind"]
+    if kind == "consumed":
+        for n, budget in item["cases"]:
+            run_consumed(col, n, budget)
+        return
     if kind == "cross-k":
         # the same n with every k, up and down, inside ONE process: state kept between calls (a cache keyed by n
         # alone was seeded once) must not leak from one k to another; independent of how the pool schedules items
@@ -652,5 +702,7 @@ def replay(case, col):
             return
         rec, exc, _s = scoring_run(case["n"], case["budget"], ch)
         judge_scoring(col, case["n"], case["budget"], ch.choices, rec, exc)
+    elif case["kind"] == "consumed":
+        run_consumed(col, case["n"], case["budget"])
     else:
         raise ValueError(case)
